@@ -250,6 +250,16 @@ class ElementTraits<std::index_sequence<I...>, Parameter...>
         return emplace_at<false>(address, fixed_sizes, std::forward<Args>(args)...);
     }
 
+    // Moves the objects of `source` to the lower address `address`, one by one and in address order, so that the
+    // target may overlap the source.
+    static std::byte* relocate_element_at(std::byte* address, const ContiguousReference& source)
+    {
+        ((address = detail::ParameterTraits<Parameter>::template relocate<previous_trailing_alignment<I>()>(
+              cntgs::get<I>(source), address)),
+         ...);
+        return address;
+    }
+
     template <class SizeGetterType = ElementTraits::SizeGetter, class FixedSizesType = ElementTraits::FixedSizesArray>
     static ContiguousPointer load_element_at(std::byte* CNTGS_RESTRICT address,
                                              const FixedSizesType& CNTGS_RESTRICT fixed_sizes) noexcept
